@@ -46,8 +46,16 @@ func (p *optionsParser) parseFrom(file ast.File) {
 	}
 
 	seen := make(map[string]int)
+	keys := make(map[string]ast.Identifier)
+	defer func() {
+		if opts.TokenStream && !opts.EventBased {
+			// Note: token streams report tokens to the parser listener.
+			p.Errorf(keys["tokenStream"], "tokenStream requires eventBased = true")
+		}
+	}()
 	for _, opt := range file.Options() {
 		name := opt.Key().Text()
+		keys[name] = opt.Key()
 		if line, ok := seen[name]; ok {
 			p.Errorf(opt.Key(), "reinitialization of '%v', previously declared on line %v", name, line)
 		}
